@@ -200,6 +200,10 @@ def flatten(elems):
         text.append(t)
     return " ".join(text), relems
 
+def _timeout(*rs):
+    """slow is not wrong: a run that hit the time limit is skipped (head-formula unfolding is exponential in nesting depth)"""
+    return any(x[0] == "err" and x[1] == "Timeout" for x in rs)
+
 def _search_chunk(args):
     seed, n, H = args
     r = random.Random(seed)
@@ -223,7 +227,7 @@ def _search_chunk(args):
                 p1 = "#program always. {{ b }}. #program initial. &tel {{ {} }}.".format(text)
                 p2 = "#program always. {{ b }}. #program initial. &tel {{ {} }}.".format(ptext)
             r1, r2 = oracles.impl_models(p1, H), oracles.impl_models(p2, H)
-            if r1 != r2:
+            if r1 != r2 and not _timeout(r1, r2):
                 fails.append({"kind": "precedence", "where": kind, "text": p1 + "\n%%% versus the documented reading\n" + p2,
                               "input": [p1, p2], "raw": text, "parenthesised": ptext, "got": [str(r1)[:300], str(r2)[:300]]})
     # dynamic formulas: path operators
@@ -250,7 +254,7 @@ def _search_chunk(args):
         p1 = "#program always. {{ a; b }}. w :- not not &del {{ {} }}.".format(text)
         p2 = "#program always. {{ a; b }}. w :- not not &del {{ {} }}.".format(ptext)
         r1, r2 = oracles.impl_models(p1, H), oracles.impl_models(p2, H)
-        if r1 != r2:
+        if r1 != r2 and not _timeout(r1, r2):
             fails.append({"kind": "precedence", "where": "del", "text": p1 + "\n%%% versus the documented reading\n" + p2,
                           "input": [p1, p2], "raw": text, "parenthesised": ptext, "got": [str(r1)[:300], str(r2)[:300]]})
     return cnt, fails
